@@ -321,4 +321,104 @@ theorem request_parse (pairs : List (Bytes × Bytes)) (body bs : Bytes)
         · subst h; simp
         · simp at h
 
+/-! ### response side -/
+theorem splitHeader_some (conn : Bytes) (x : UInt8 × UInt8 × Nat × Nat × Nat × Bytes)
+    (h : splitHeader conn = some x) :
+    ∃ v t i1 i0 c1 c0 p r rest, conn = v :: t :: i1 :: i0 :: c1 :: c0 :: p :: r :: rest ∧
+      x = (v, t, i1.toNat * 256 + i0.toNat, c1.toNat * 256 + c0.toNat, p.toNat, rest) := by
+  unfold splitHeader at h
+  split at h
+  · rename_i v t i1 i0 c1 c0 p r rest
+    exact ⟨v, t, i1, i0, c1, c0, p, r, rest, rfl, by simpa using h.symm⟩
+  · simp at h
+
+theorem readStream_parse : ∀ (fuel1 : Nat) (conn : Bytes) (rs : List Rec),
+    parseRecs fuel1 conn = some rs → hasEnd rs = true →
+    ∀ (fuel2 : Nat) (acc : Bytes), conn.length < fuel2 →
+    readStream fuel2 conn acc = (acc ++ allBeforeEnd rs, End.eof) := by
+  intro fuel1
+  induction fuel1 with
+  | zero =>
+    intro conn rs h he
+    unfold parseRecs at h
+    split at h
+    · simp only [Option.some.injEq] at h; subst h; simp [hasEnd] at he
+    · simp at h
+  | succ f ih =>
+    intro conn rs h he fuel2 acc hf
+    unfold parseRecs at h
+    by_cases h0 : conn.length = 0
+    · simp only [h0, if_true, Option.some.injEq] at h; subst h; simp [hasEnd] at he
+    · simp only [h0, if_false] at h
+      cases hs : splitHeader conn with
+      | none => simp [hs] at h
+      | some x =>
+        obtain ⟨v, t, rid, cl, pl, rest⟩ := x
+        have hlen : conn.length = rest.length + 8 := by
+          obtain ⟨_, _, _, _, _, _, _, _, rest', hc, hx⟩ := splitHeader_some conn _ hs
+          simp only [Prod.mk.injEq] at hx
+          rw [hc, hx.2.2.2.2.2]; simp
+        simp only [hs] at h
+        by_cases hv : v = 1
+        · subst hv
+          simp only [ne_eq, not_true_eq_false, if_false] at h
+          by_cases hl : rest.length < cl + pl
+          · simp [hl] at h
+          · simp only [hl, if_false] at h
+            cases hp : parseRecs f (rest.drop (cl + pl)) with
+            | none => simp [hp] at h
+            | some rs' =>
+              simp only [hp, Option.map_some, Option.some.injEq] at h
+              subst h
+              cases fuel2 with
+              | zero => omega
+              | succ g =>
+                unfold readStream
+                simp only [h0, if_false, hs, ne_eq, not_true_eq_false]
+                by_cases ht : t = 3
+                · subst ht
+                  simp [allBeforeEnd]
+                · simp only [ht, if_false]
+                  have he' : hasEnd rs' = true := by
+                    simp only [hasEnd, List.any_cons, Bool.or_eq_true, beq_iff_eq] at he
+                    rcases he with he | he
+                    · exact absurd he ht
+                    · simpa [hasEnd] using he
+                  have hcons : allBeforeEnd (⟨t, rid, rest.take cl⟩ :: rs') =
+                      rest.take cl ++ allBeforeEnd rs' := by
+                    simp [allBeforeEnd, ht]
+                  by_cases hn : cl + pl = 0
+                  · simp only [hn, if_true]
+                    rw [hn, List.drop_zero] at hp
+                    rw [ih rest rs' hp he' g acc (by omega), hcons]
+                    have : cl = 0 := by omega
+                    simp [this]
+                  · simp only [hn, if_false]
+                    have h1 : ¬ rest.length = 0 := by omega
+                    simp only [h1, hl, if_false]
+                    rw [ih _ rs' hp he' g _ (by simp only [List.length_drop]; omega), hcons]
+                    simp [List.append_assoc]
+        · simp [hv] at h
+
+theorem allBeforeEnd_eq_stdoutOf : ∀ (rs : List Rec),
+    (∀ r ∈ rs, r.typ = 6 ∨ r.typ = 3 ∨ r.content = []) → allBeforeEnd rs = stdoutOf rs := by
+  intro rs
+  induction rs with
+  | nil => intro _; rfl
+  | cons r rest ih =>
+    intro h
+    have ih' := ih (fun q hq => h q (List.mem_cons_of_mem _ hq))
+    unfold allBeforeEnd stdoutOf at ih' ⊢
+    by_cases h3 : r.typ = 3
+    · simp [List.takeWhile_cons, h3]
+    · have hb : (r.typ != 3) = true := by simpa using h3
+      simp only [List.takeWhile_cons, hb, if_true, List.map_cons, List.flatten_cons, List.filter_cons]
+      rcases h r (List.mem_cons_self ..) with h6 | h3' | he
+      · simp [h6, ih']
+      · exact absurd h3' h3
+      · by_cases h6 : r.typ = 6
+        · simp [h6, ih']
+        · have : (r.typ == 6) = false := by simpa using h6
+          simp [this, he, ih']
+
 end BfeVerif.C55
